@@ -594,6 +594,9 @@ func (st *state) distribute(d *gen.Dst, x *big.Int) *Err {
 			if err != nil {
 				return err
 			}
+			if left.Sign() == 0 {
+				break // nothing left: later caps are not even looked at
+			}
 			take := minB(max0(c), left)
 			if take.Sign() > 0 {
 				if err := st.to(&d.Clauses[i].To, take); err != nil {
